@@ -559,10 +559,16 @@ def gen_caps(rng, idx):
             if "props" in kw: s.steps[-1]["props"] = pr
         elif k < 0.85:
             i = s.oid(); s.nmsg += 1
-            f = r.choice(["a/b%d", "a/+/%d", "a%d/#", "$share/g/a%d", "$share/g/a%d/#"]) % s.nmsg
+            shapes = ["a/b%d", "a/+/%d", "a%d/#", "$share/g/a%d", "$share/g/a%d/#"]
+            f = r.choice(shapes) % s.nmsg
             d = dict(op="sub", id=i, topics=[f])
+            if r.random() < 0.5:
+                # several Topic Filters in one request, the one needing a (possibly disabled) feature in any position
+                fs = [f] + [r.choice(shapes) % (s.nmsg * 10 + j + 1) for j in range(r.choice([1, 2]))]
+                r.shuffle(fs)
+                d["topics"] = fs
             if r.random() < 0.4: d["props"] = [[11, r.choice([1, 5, 268435455])]]
-            if mps and r.random() < 0.4: d["topics"] = ["t" * max(0, mps - r.choice([10, 12, 14, 16, 18])) + "/" + f if not f.startswith("$share") else f]
+            elif mps and r.random() < 0.4: d["topics"] = ["t" * max(0, mps - r.choice([10, 12, 14, 16, 18])) + "/" + f if not f.startswith("$share") else f]
             s.steps.append(d)
         else:
             s.sub(unsub=True)
